@@ -268,6 +268,9 @@ func (s *Sim) Gen(r *PRNG) Step {
 		st.A, st.B = r.Intn(nsets), r.Intn(8)
 	case "template":
 		st.A, st.B = r.Intn(nsets), r.Intn(4)
+		if r.Chance(0.2) {
+			st.C = 1
+		}
 	case "partition":
 		st.A, st.B = r.Intn(nsets), r.Intn(7)
 	case "strategy", "policy":
